@@ -26,7 +26,7 @@ From Coq Require Import ZArith List Bool Lia.
 From Low Require Import Lib.MachInt Lib.BitSeq Model.SectionWriter Spec.SectionWriterSpec Run.C18
   Model.MemFile Model.SectionReader Spec.SectionReaderSpec
   Proofs.SectionWriterProofs Proofs.SectionWriterCalls Proofs.MemFileProofs Proofs.SectionIOProofs
-  Proofs.SectionStreamProofs.
+  Proofs.SectionStreamProofs Proofs.SectionCountProofs.
 Import ListNotations.
 Open Scope Z_scope.
 
@@ -123,6 +123,23 @@ Theorem C18_writeat_accounting : forall o n s sc p a,
     rets r = [cnt; if e =? 0 then (if m <? zlen p then E_short else E_nil) else e])).
 Proof. exact writeat_accounting_at. Qed.
 Print Assumptions C18_writeat_accounting.
+
+(** The returned count equals the bytes passed through, call by call over any sequence and any
+    faulty writer: a Write / WriteAt makes at most one call to the underlying writer and returns
+    exactly the number of bytes of that call the writer accepted (0 when nothing reached it);
+    Seek and Size never reach the writer.  ([accepted cnt u] = |firstn cnt (bytes of u)|.) *)
+Theorem C18_count_is_bytes_passed : forall o n sc cs,
+  0 <= o /\ 0 <= n /\ o + n <= 2^63 - 1 ->
+  Forall (fun r => 0 <= fst r) sc -> Forall call_ok cs ->
+  Forall2 (fun c r =>
+    match c with
+    | CWrite _ | CWriteAt _ _ =>
+        (length (ucalls r) <= 1)%nat /\
+        ret_cnt r = zsum (map (accepted (ret_cnt r)) (ucalls r))
+    | CSeek _ _ | CSize => ucalls r = []
+    end) cs (run (NewSectionWriter o n) sc cs).
+Proof. exact section_count_is_bytes. Qed.
+Print Assumptions C18_count_is_bytes_passed.
 
 (** ** io.ErrShortWrite is returned exactly when the request is truncated by, or starts at or
     beyond, the section end -- provided the underlying writer reports no error on this call
